@@ -125,7 +125,7 @@ def origins(b, e, seen=None, depth=0):
         fn = e[1] or ''
         if fn.endswith(FETCH):
             return {'fetch'}
-        if fn.endswith('::get_unchecked') or 'index' in fn.rsplit('::', 1)[-1]:
+        if fn.endswith('::get_unchecked') or 'index' in fn.rsplit('::', 1)[-1] or (fn.startswith('core::slice::<impl [T]>::') and fn.rsplit('::', 1)[-1] in ('get', 'first', 'last')):
             base = strip_ref(e[2][0])
             return {'src'} if base == ('loc', 2) else {'other'}
         if fn.startswith('core::') or fn.startswith('EncoderResult::'):
